@@ -275,10 +275,11 @@ func runReplayCase(c *verdict.Ctx, idx int, tmp string) {
 					// round 0 of h; that vote sits before the end-of-height marker and is not replayed
 					key = "replay-step-stays-newheight-after-skip-timeout-commit"
 				case equivocationSeen(nd, live.Height) && (!containsField(d, "height", "round", "step", "proposal:", "proposal_block") ||
-					(lostClaimedMajority(live.Votes, replayed.Votes) && !containsField(d, "height", "proposal:", "proposal_block"))):
+					(lostClaimedMajority(live.Votes, replayed.Votes) && !containsField(d, "height"))):
 					// (second form: a polka that existed live only through such a vote is missing after replay, and
 					// what hangs on it differs too - a proposal whose POL round it was stays incomplete, so the
-					// replayed node is still waiting in an earlier step and has not locked)
+					// replayed node is still waiting in an earlier step and has not locked, or has not seen the commit
+					// the live node is waiting for and went on to later rounds)
 					// votes admitted only because a peer claimed a 2/3 majority (SetPeerMaj23 is not written to the WAL)
 					// are refused as conflicting on replay: vote sets / polka-derived fields differ
 					key = "replay-loses-conflicting-votes-admitted-through-unlogged-maj23-claim"
@@ -294,10 +295,22 @@ func runReplayCase(c *verdict.Ctx, idx int, tmp string) {
 	}
 }
 
-// lostClaimedMajority reports whether some vote set had a 2/3 majority live and has none after replay.
+// lostClaimedMajority reports whether some vote set had a 2/3 majority live and has none after
+// replay although the SAME validators have voted in both (identical bit arrays): the signature of
+// votes that exist only per block, i.e. conflicting votes admitted through a majority claim.  An
+// ordinary vote lost by the replay would change the bit array.
 func lostClaimedMajority(live, replayed []string) bool {
+	ba := func(s string) string {
+		i := strings.Index(s, "BA{")
+		j := strings.Index(s, "}")
+		if i < 0 || j < i {
+			return ""
+		}
+		return s[:j+1]
+	}
 	for i := range live {
-		if i < len(replayed) && live[i] != replayed[i] && strings.Contains(live[i], "maj23=true") && strings.Contains(replayed[i], "maj23=false") {
+		if i < len(replayed) && live[i] != replayed[i] && ba(live[i]) != "" && ba(live[i]) == ba(replayed[i]) &&
+			strings.Contains(live[i], "maj23=true") && strings.Contains(replayed[i], "maj23=false") {
 			return true
 		}
 	}
